@@ -723,7 +723,7 @@ class ContainsAllRequiredFirewalls(Contract):
     tags = {"": ("C17", "C18")}
 
     def setup(self, I, variant):
-        nS = size_var(I, "doc_nS", 3)
+        nS = size_var(I, "doc_nS", 2)           # bounded stand-in: internet + one subnet (two symbolic links)
         I.ctx.assume(nS >= 2)
         I.ext_state["fwc_nS"] = nS
         B.addr_axioms(I)
@@ -796,16 +796,22 @@ class ValidateFirewall(_Leaf):
 
     def setup(self, I, variant):
         from pyvc.values import SymDict
-        nS, n, nSrv = size_var(I, "doc_nS", 3), size_var(I, "doc_n_rules", 2), size_var(I, "doc_nSrv", 2)
+        conc = I.ext_state.get("concrete") is not None
+        nS, n, nSrv = size_var(I, "doc_nS", 2), size_var(I, "doc_n_rules", 2), size_var(I, "doc_nSrv", 2)
         j, i2 = z3.Int("vf_j"), z3.Int("vf_i")
         I.ctx.assume(z3.And(nS >= 2, n >= 0, nSrv >= 1, z3.ForAll([j], rule_len(j) >= 0)))
+        if conc:
+            # bounded stand-in: every rule is a list of two (symbolic) names, the helpers' real loops are unrolled
+            I.ctx.assume(z3.ForAll([j], rule_len(j) == 2))
+            I.ext_state.update(fw_n=z3.IntVal(2), fw_nSrv=nSrv)
         I.ctx.assume(z3.ForAll([j, i2], z3.Implies(z3.And(0 <= j, j < i2, i2 < n), fwk(j) != fwk(i2))))
         B.addr_axioms(I)
         I.ext_state.update(vf_nSrv=nSrv, fwc_nS=nS)
         keys = SymSeq(n, lambda q: SymV(fwk(ival(q)), "name"), "firewall.keys")
         in_keys = lambda k: z3.Exists([j], z3.And(0 <= j, j < n, fwk(j) == nameval(k)))
-        fw = SymDict(in_keys, lambda k: SymSeq(rule_len(nameval(k)), lambda q, k=k: SymV(rule_name(nameval(k), ival(q)), "name"),
-                                               "list"), keys=keys, label="firewall")
+        fw = SymDict(in_keys, lambda k: SymSeq(2 if conc else rule_len(nameval(k)),
+                                               lambda q, k=k: SymV(rule_name(nameval(k), ival(q)), "name"), "list"),
+                     keys=keys, label="firewall")
         topo = SymSeq(nS, lambda r: SymSeq(nS, lambda c, r=r: SymV(doc_topo(ival(r), ival(c)), "int"), "list"), "list")
         a, b = z3.Int("vf_a"), z3.Int("vf_b")
         has = lambda x, y: in_keys(SymV(B.ADDR_STR(x, y), "name"))
